@@ -518,7 +518,15 @@ func (db *DB) search(o Object, field, operator string, value interface{}, constr
 
 func (db *DB) flush(o Object) (err error) {
 
-	if e := db.writeObject(o); e != nil {
+	// what goes to disk is the accepted copy waiting to be written, not
+	// the Object of the caller which may have changed since, or may never
+	// have been accepted
+	pending, ok := db.asyncw.get(o)
+	if !ok {
+		return
+	}
+
+	if e := db.writeObject(pending); e != nil {
 		err = e
 	}
 
